@@ -24,6 +24,7 @@ import os
 import re
 import subprocess
 import tempfile
+import time
 import concurrent.futures
 
 from . import runner
@@ -251,7 +252,9 @@ def run_pass(acc, prop, tier, seed, kinds=("asan", "memcheck", "miri"), quick=No
         nj = sizes.get(kind, 0)
         if nj <= 0 or not corpus:
             continue
+        t = time.time()
         _pass(acc, prop, kind, corpus[:nj], runner.NCPU)
+        acc.n["sanit_%s_wall_s" % kind] = int(time.time() - t)
     acc.add("sanit_monitors", ",".join(k for k in kinds if sizes.get(k, 0) > 0))
 
 
